@@ -64,6 +64,12 @@ func genC14Script(r *h.Rng, timeout time.Duration, timeoutsOn bool) c14Script {
 		if d <= 0 {
 			d = time.Microsecond
 		}
+		if timeout%d == 0 {
+			// never let a wake-up of the script coincide with the watchdog's
+			// timer: which of two timers due at one instant runs first is the
+			// runtime's choice
+			d += 7 * time.Nanosecond
+		}
 		return c14Script{Family: "nonterm", Code: fmt.Sprintf("while(true){Env.sleep(%d)}", int64(d)), StepNs: int64(d)}
 	default:
 		k := r.Range(1, 5)
